@@ -1,12 +1,13 @@
 (* eng_compvec.ml — model side of engine `compvec` (C07, compressed half of C03).
-   Input tokens:  <fmt> <ty> v=<options.version> <op>...
+   Input tokens:  <fmt> <ty> v=<options.version> k=<saved_stamped_changes> <op>...
      fmt  pco | lz4 | zstd | epco | elz4 | ezstd           (e* = EagerVec wrapper: delegates)
      ty   u8 | u16 | u32 | u64 | i64 | f32 | f64 | u128 | a3      (a3 = [u8; 3])
      op   p:<vspec>          push       vspec = <class>.<seed>.<count> | x<hex of LE values>
           t:<n>              truncate_if_needed_at(n)
           w:<hints>          write()    hints = real `bytes` of every page on disk after the op ("-" = none)
           f:<hints>          flush() + Database::flush()
-          s:<stamp>:<hints>  stamped_write_with_changes(stamp)   (saved_stamped_changes = 0)
+          s:<stamp>:<hints>  stamped_write_with_changes(stamp)   (a commit when k > 0)
+          b                  rollback()            bb:<stamp>   rollback_before(stamp)
           r                  reset()
           i | o              drop + forced_import_with  (o: also close and reopen the Database)
    One observation line per step (step 0 = the initial import). *)
@@ -115,6 +116,7 @@ let cverr_name (e : CvPages.cverr) : string =
   | EExpectVecToHaveIndex -> "ExpectVecToHaveIndex" | EDecompressionMismatch -> "DecompressionMismatch"
   | EWrongLength -> "WrongLength" | EDifferentVersion -> "DifferentVersion" | EDifferentFormat -> "DifferentFormat"
   | EInvalidFormat -> "InvalidFormat" | EUnderflow -> "Underflow" | EOverflow -> "Overflow" | EIo -> "IO"
+  | EIndexTooHigh -> "IndexTooHigh" | EStampMismatch -> "StampMismatch"
   | ERawdb CvRegion.WriteOutOfBounds -> "WriteOutOfBounds" | ERawdb CvRegion.TruncateInvalid -> "TruncateInvalid"
 
 let width_of = function
@@ -142,21 +144,26 @@ let observe (k : int) (w : int) (wn : nat) (res : string) (rg : string) (s : coq
     | Err e -> "err:" ^ cverr_name e
     | Panic -> "panic" in
   let hd = L.map CvRegion.cell_byte (Base.take Sizes.coq_HEADER_OFFSET s.s_data) in
-  Printf.sprintf "%d %s rg=%s len=%s st=%s c=%s sl=%s pl=%d rl=%s dl=%d hd=%s pg=%s"
+  let ch = match s.s_changes with
+    | None -> "x"
+    | Some [] -> "-"
+    | Some l -> S.concat "," (L.map (fun (st, bs) -> string_of_n st ^ ":" ^ fnv bs) l) in
+  Printf.sprintf "%d %s rg=%s len=%s st=%s c=%s sl=%s pl=%d rl=%s dl=%d hd=%s pg=%s ch=%s"
     k res rg (string_of_n (cv_len s)) (string_of_n (cv_stamp s)) coll (string_of_n s.s_stored_len)
     (L.length s.s_pushed) (string_of_n (CvInst.x_real_stored_len wn s)) (L.length s.s_data)
-    (hex_of_bytes hd) (hex_of_bytes s.s_pg.CvPages.pg_disk)
+    (hex_of_bytes hd) (hex_of_bytes s.s_pg.CvPages.pg_disk) ch
 
 let exec (t : string list) : string list =
   match t with
-  | fmt :: ty :: ver :: ops ->
+  | fmt :: ty :: ver :: kk :: ops ->
       let w = width_of ty in
       let wn = nat_of_int w in
       let ver = match S.split_on_char '=' ver with [_; v] -> int_of_string v | _ -> failwith "version" in
+      let kk = match S.split_on_char '=' kk with ["k"; v] -> n_of_string v | _ -> failwith "retention" in
       let adds = int_of_n Consts.coq_COMP_FORCED_OWN_ADDS + int_of_n Consts.coq_COMP_IMPORT_ADDS in
       let vver = n_of_int (ver + adds * int_of_n Consts.coq_COMP_LAYER_VERSION) in
       let fc = fmt_code fmt in
-      (match CvInst.x_import wn fc vver [] [] with
+      (match CvInst.x_import wn fc vver kk [] [] with
        | Err e -> ["0 err:" ^ cverr_name e]
        | Panic -> ["0 panic"]
        | Ok s0 ->
@@ -174,15 +181,18 @@ let exec (t : string list) : string list =
                  | ["s"; st; h] -> CvModel.StampedWrite (n_of_string st, parse_hints h)
                  | ["r"] -> CvModel.Reset
                  | ["i"] | ["o"] -> CvModel.Reimport
+                 | ["b"] -> CvModel.Rollback
+                 | ["bb"; st] -> CvModel.RollbackBefore (n_of_string st)
                  | _ -> failwith ("op " ^ tok) in
                let rg = match o with
                  | CvModel.Write _ | CvModel.Flush _ -> regime_name (CvInst.x_regime wn !s)
                  | CvModel.StampedWrite _ -> regime_name (CvInst.x_regime wn !s)
                  | _ -> "-" in
                let (s', r) = CvInst.x_step wn fc vver !s o in
+               let is_rb = (match o with CvModel.Rollback | CvModel.RollbackBefore _ -> true | _ -> false) in
                let res = match r with
                  | Ok true -> "ok1" | Ok false -> "ok0"
-                 | Err e -> stop := true; "err:" ^ cverr_name e
+                 | Err e -> if not is_rb then stop := true; "err:" ^ cverr_name e
                  | Panic -> stop := true; "panic" in
                s := s';
                out := (if !stop then Printf.sprintf "%d %s" !k res else observe !k w wn res rg s') :: !out
